@@ -3403,3 +3403,42 @@ Proof.
         right. exists e', b. split; [autorewrite with plc; exact Hp|exact Hm].
   - intros k' e' b Hp. autorewrite with plc. apply DcF, DcE, Dc. apply P7. exact Hp.
 Qed.
+
+Definition S_arms (a : arms) : Prop := S_elif a /\ S_handlers a /\ S_cases a.
+
+Lemma S_elif_nil : S_elif ANil.
+Proof. intros els merge s l inl _ _ _ H. exfalso. apply H. reflexivity. Qed.
+
+Theorem S_all :
+  (forall x, S_stmt x) /\ (forall b, S_block b) /\ (forall a, S_arms a) /\ (forall o, S_oblock o).
+Proof.
+  apply ast_mutind.
+  - intro k. apply (S_simple_like (Simple k) k); [reflexivity|reflexivity|left; reflexivity].
+  - intro k. apply (S_simple_like (Pass k) k); [reflexivity|reflexivity|left; reflexivity].
+  - exact S_return.
+  - exact S_raise.
+  - exact S_break.
+  - exact S_continue.
+  - intros k body Sb elifs Sa els Se. destruct elifs as [|k1 b1 rest].
+    + destruct els as [|eb]; [apply S_if_nil_none; exact Sb|apply S_if_nil_some; [exact Sb|exact Se]].
+    + apply S_if_elif; [exact Sb|apply Sa|exact Se].
+  - intros k body Sb els Se. destruct els as [|eb]; [apply S_while_none; exact Sb|apply S_while_some; [exact Sb|exact Se]].
+  - intros k body Sb els Se. destruct els as [|eb]; [apply S_for_none; exact Sb|apply S_for_some; [exact Sb|exact Se]].
+  - intros k body Sb hs Sh els Se fin Sf. destruct Sh as (_ & Sh & _).
+    destruct els as [|eb]; destruct fin as [|fb].
+    + apply S_try_nn; assumption.
+    + apply S_try_ns; assumption.
+    + apply S_try_sn; assumption.
+    + apply S_try_ss; assumption.
+  - intros k body Sb. apply S_with; exact Sb.
+  - intros k cases Sc. apply S_match. apply Sc.
+  - intros k cl. apply S_comp.
+  - intros k nm body _. apply (S_simple_like (Def k nm body) k); [reflexivity|reflexivity|left; reflexivity].
+  - intros k nm body Sb. apply S_class; exact Sb.
+  - exact S_block_nil.
+  - intros x Sx b Sb. apply S_block_cons; assumption.
+  - split; [exact S_elif_nil|split; [exact S_handlers_nil|exact S_cases_nil]].
+  - intros k b Sb a (Sa1 & Sa2 & Sa3). split; [apply S_elif_cons; assumption|split; [apply S_handlers_cons; assumption|apply S_cases_cons; assumption]].
+  - exact Logic.I.
+  - intros b Sb. exact Sb.
+Qed.
